@@ -41,6 +41,7 @@ pub proof fn lemma_suffix_boundary(s: Seq<char>, t: Seq<char>)
 //@ item trim_prefix file=src/sys/fs/path.rs fn=trim_prefix props=C15,C12
 //@ sig pub fn trim_prefix<T: AsRef<Path>, U: AsRef<Path>>(path: T, prefix: U) -> PathBuf
 //@ rw R7 * re⟦PathBuf::from\(&base\[([^\]]+)\.\.\]\)⟧ => ⟦PathBuf::from_s(&base.slice_from(\1))⟧
+//@ rw R4 * ⟦.chars().count()⟧ => ⟦.chars_count()⟧
 //@ ins start
     proof {
         if path.utf8_ok() && prefix.utf8_ok() && is_prefix(prefix.pstr(), path.pstr()) {
@@ -59,6 +60,7 @@ pub fn trim_prefix(path: &PathBuf, prefix: &PathBuf) -> (r: PathBuf)
 //@ item trim_suffix file=src/sys/fs/path.rs fn=trim_suffix props=C15,C12
 //@ sig pub fn trim_suffix<T: AsRef<Path>, U: AsRef<Path>>(path: T, suffix: U) -> PathBuf
 //@ rw R7 * re⟦PathBuf::from\(&base\[\.\.([^\]]+)\]\)⟧ => ⟦PathBuf::from_s(&base.slice_to(\1))⟧
+//@ rw R4 * ⟦.chars().count()⟧ => ⟦.chars_count()⟧
 //@ ins start
     proof {
         if path.utf8_ok() && suffix.utf8_ok() && is_suffix(suffix.pstr(), path.pstr()) {
